@@ -2799,7 +2799,7 @@ fn main() {
         }
     }
     // 7. command lines: scripts of the structural model's fragment in free surface form, and mutations
-    let n_lines = if o.thorough() { 120_000 } else { 1_200 };
+    let n_lines = if o.thorough() { 60_000 } else { 700 };
     let mut lrng = Rng::new(o.seed ^ 0x11E5_C06);
     for k in 0..n_lines {
         let s = lrng.next();
